@@ -25,6 +25,7 @@ type Comparer struct {
 
 	Values    bool // compare captured values (C01)
 	Positions bool // compare Pos / EndPos / Tokens (C11)
+	NamesElided bool // the grammar names elided types: Pos/EndPos are outside C11's statement, only Tokens is checked
 	NodesSeen int
 	PosNodes  int // nodes whose Pos/EndPos/Tokens were checked
 	ElidedAdj int // nodes with an elided token adjacent to a run boundary
@@ -129,7 +130,7 @@ func (c *Comparer) positions(v reflect.Value, n *Node, path string) {
 	if !toksEq(got, want) {
 		c.add(path, "tokens", "Tokens = %s, want the raw run %s", fmtToks(got), fmtToks(want))
 	}
-	if n.End > n.Start {
+	if n.End > n.Start && !c.NamesElided {
 		first := n.Start
 		for first < n.End && c.L.Toks[first].Elided {
 			first++
@@ -521,13 +522,16 @@ func brief(v reflect.Value) string {
 
 // Plain renders the captured content of an AST without positions (used for metamorphic
 // comparisons and messages). Token fields are rendered by type and text.
-func Plain(v reflect.Value) string {
+func Plain(v reflect.Value) string { return plain(v, false) }
+
+// PlainMasked is Plain with lexer.Token / []lexer.Token fields blanked.
+func PlainMasked(v reflect.Value) string { return plain(v, true) }
+
+// HoldsElidedToken reports whether some lexer.Token / []lexer.Token field below v holds a token of an elided type.
+func HoldsElidedToken(g *Grammar, v reflect.Value) bool {
 	for v.Kind() == reflect.Ptr || v.Kind() == reflect.Interface {
 		if v.IsNil() {
-			return "nil"
-		}
-		if v.Kind() == reflect.Ptr {
-			return "&" + Plain(v.Elem())
+			return false
 		}
 		v = v.Elem()
 	}
@@ -535,6 +539,44 @@ func Plain(v reflect.Value) string {
 	case reflect.Struct:
 		if v.Type() == tTok {
 			t := v.Interface().(lexer.Token)
+			return g.IsElided(lexSyms[t.Type])
+		}
+		for i := 0; i < v.NumField(); i++ {
+			n := v.Type().Field(i).Name
+			if n == "Pos" || n == "EndPos" || n == "Tokens" || n == "PosMixin" {
+				continue
+			}
+			if HoldsElidedToken(g, v.Field(i)) {
+				return true
+			}
+		}
+	case reflect.Slice:
+		for i := 0; i < v.Len(); i++ {
+			if HoldsElidedToken(g, v.Index(i)) {
+				return true
+			}
+		}
+	}
+	return false
+}
+
+func plain(v reflect.Value, mask bool) string {
+	for v.Kind() == reflect.Ptr || v.Kind() == reflect.Interface {
+		if v.IsNil() {
+			return "nil"
+		}
+		if v.Kind() == reflect.Ptr {
+			return "&" + plain(v.Elem(), mask)
+		}
+		v = v.Elem()
+	}
+	switch v.Kind() {
+	case reflect.Struct:
+		if v.Type() == tTok {
+			t := v.Interface().(lexer.Token)
+			if mask {
+				return "tok"
+			}
 			return fmt.Sprintf("tok(%s %q)", lexSyms[t.Type], t.Value)
 		}
 		if v.Type() == tPos || v.Type() == tMyPos || v.Type() == tMixin {
@@ -547,7 +589,7 @@ func Plain(v reflect.Value) string {
 			if n == "Pos" || n == "EndPos" || n == "Tokens" || n == "PosMixin" || strings.HasPrefix(n, "Marker") {
 				continue
 			}
-			sb.WriteString(n + ":" + Plain(v.Field(i)) + ";")
+			sb.WriteString(n + ":" + plain(v.Field(i), mask) + ";")
 		}
 		sb.WriteString("}")
 		return sb.String()
@@ -555,10 +597,13 @@ func Plain(v reflect.Value) string {
 		if v.Len() == 0 {
 			return "[]"
 		}
+		if mask && v.Type() == tToks {
+			return "toks"
+		}
 		var sb strings.Builder
 		sb.WriteString("[")
 		for i := 0; i < v.Len(); i++ {
-			sb.WriteString(Plain(v.Index(i)) + ",")
+			sb.WriteString(plain(v.Index(i), mask) + ",")
 		}
 		sb.WriteString("]")
 		return sb.String()
